@@ -913,8 +913,11 @@ def _controls_rest(pctx, rep):
     rep.control("R2:unguarded-add", ("overflow_add_param", "Overflow(Add)") in und, "posctl::overflow_add_param")
     rep.control("R2:guarded-index-ok", not any(f == "index_guarded_ok" for f, m in und), "posctl::index_guarded_ok must stay silent")
     rep.control("R2:unguarded-slice-index", ("index_unguarded", "BoundsCheck") in und, "posctl::index_unguarded")
+    rep.control("R2:scan-helper-unguarded-caller", ("scan_end_bad", "BoundsCheck") in und, "posctl::scan_end_bad: its caller passes an unchecked index, `xs[start]` stays unproven")
+    rep.control("R2:scan-helper-ok", not any(f in ("scan_end", "scan_helper_ok") for f, m in und), "posctl::scan_end / scan_helper_ok must stay silent (caller-side guard + scan summary)")
     rep.control("R2:guard-on-other-slice", ("index_guard_other_container", "BoundsCheck") in und, "posctl::index_guard_other_container: `i < a.len()` does not bound `b[i]`")
     ui = {b.short for b, i, t, cont, ity, idx, why in P.index_sites(F, bodies) if why is None}
+    rep.control("R2:scan-helper-range-ok", "scan_helper_ok" not in ui, "posctl::scan_helper_ok: `xs[i..e]` with e = scan_end(xs, i) must stay silent")
     rep.control("R2:guard-on-other-vec", "vec_index_guard_other_container" in ui, "posctl::vec_index_guard_other_container: `i < a.len()` does not bound `b[i]`")
     rep.control("R2:guarded-vec-index-ok", "vec_index_guarded_ok" not in ui, "posctl::vec_index_guarded_ok must stay silent")
     rep.control("R2:unguarded-vec-index", "vec_index_unguarded" in ui, "posctl::vec_index_unguarded")
